@@ -401,8 +401,9 @@ impl<F: AsRef<Path> + AsRef<FileId>> FileGroup<F> {
             Replication::Underreplicated(_) => 0,
             Replication::Overreplicated(rf) => {
                 let rf = max(rf, 1);
-                if filter.root_paths.is_empty() {
+                if filter.root_paths.is_empty() && !filter.group_by_id {
                     // fast-path, equivalent to the code in the else branch, but way faster
+                    // (only if every path is a replica of its own; hard links are one replica)
                     self.file_count().saturating_sub(rf)
                 } else {
                     let sub_groups =
